@@ -39,7 +39,8 @@ ROUTES = [
 def _case(cid, rel, arrs, extra, horizon=None):
     base = c05._case(cid, "inv", rel, arrs, horizon)
     base[1] = "c07"
-    return base + [extra.encode().hex()]
+    base[6] = extra.encode().hex()
+    return base
 
 
 def gen_cases(rng, tier):
@@ -83,7 +84,7 @@ def model_case(case, impl):
     for part in impl.split("\t")[1:]:
         if part.startswith("INVITE:"):
             inv = part[len("INVITE:"):]
-    return case + [inv]
+    return case[:7] + [inv]
 
 
 def _show_fields(hexs):
